@@ -537,6 +537,14 @@ def contains(eng, container, item, st, line=0):
         if isinstance(container, str) and isinstance(item, SV):
             yield st, z3.And(V.is_str(item.t), z3.Contains(z3.StringVal(container), V.Val.s(item.t)))
             return
+        mm = eng.method_models.get((type(container), "__contains__"))
+        if mm is not None:  # a concrete library constant (e.g. a module-level persistent set) with a contract-supplied model
+            for st1, res in mm.fn(eng, st, [container, item], {}):
+                if isinstance(res, Raise):
+                    yield st1, res
+                else:
+                    yield from eng.truthy(res, st1)
+            return
         raise Unsupported(f"'in' on {container!r}")
     if container.hint is not None:
         m = eng.lookup_method(container.hint, "__contains__")
